@@ -117,9 +117,9 @@ def rule_words(rep, prog, adt, field, reset_names=("reset",)):
                 counts["harvest"] += 1
                 rts = b.return_terms()
                 this = deep_strip(b.call_term(c.t, c.pos, 0))
-                ok = (len(rts) == 1 and deep_strip(rts[0][1]) == this) or _pushed_unmodified(b, this)
+                ok = (len(rts) == 1 and deep_strip(rts[0][1]) == this) or _pushed_unmodified(b, this) or _reported_as_component(b, c, this)
                 rep("R8.3.harvest", inst, ok, c.where(),
-                    "fetch_and(0): the RMW's own return value must be what the enclosing body returns, unmodified "
+                    "fetch_and(0): the RMW's own return value must be what the enclosing body returns (or a component of it), unmodified "
                     f"(returns {tstr(deep_strip(rts[0][1])) if len(rts) == 1 else 'multi'})")
                 continue
             counts["rmw"] += 1
@@ -134,7 +134,7 @@ def rule_words(rep, prog, adt, field, reset_names=("reset",)):
             counts["harvest"] += 1
             rts = b.return_terms()
             this = deep_strip(b.call_term(c.t, c.pos, 0))
-            ok = (len(rts) == 1 and deep_strip(rts[0][1]) == this) or _pushed_unmodified(b, this)
+            ok = (len(rts) == 1 and deep_strip(rts[0][1]) == this) or _pushed_unmodified(b, this) or _reported_as_component(b, c, this)
             rep("R8.3.harvest", inst, ok, c.where(), "swap(0): return value must be reported unmodified")
             continue
         rep("R8.1.unrecognised", inst, False, c.where(), f"atomic operation `{op}` on a bitmap word is not one of load / single-bit fetch_or / single-bit fetch_and / fetch_and(0) / reset's store(0)")
@@ -163,6 +163,24 @@ def rule_field_census(rep, prog, adt, field):
             root = prog.by_id.get(b.root, b)
             rep("R8.4.owner", strip_generics(b.id), root.self_adt == adt, b.where(), f"only methods of {adt} may touch its words")
     return n
+
+
+def _reported_as_component(b, c, this):
+    """every return of the body that the RMW dominates hands the RMW's own value on, unmodified, as the returned value or as a
+    component of the returned aggregate (`Some((index, word))`, a tuple, a struct); returns the RMW does not dominate (a path that
+    skipped the word) cleared nothing and owe nothing"""
+    from ..pat import unref
+
+    def carries(t, depth=0):
+        t = unref(t)
+        if t == this:
+            return True
+        if depth < 4 and t[0] == 'agg':
+            return any(carries(x, depth + 1) for x in t[3])
+        return False
+    rts = b.return_terms()
+    owed = [(p, t) for p, t in rts if b.pos_dominates(c.pos, p)]
+    return bool(owed) and all(carries(t) for _p, t in owed)
 
 
 def _pushed_unmodified(b, this):
